@@ -382,9 +382,9 @@ func sweepC13(tier string, emit func(*CaseC13)) {
 						first := Tile{H: 1, X: 0, Y: 1, V: v, Z: z}
 						inner := first
 						inner.V = v + 2
-						inner.Z = 3
+						inner.Z = 2 // strictly inside the straddling tile: it ends below its top and begins above its bottom
 						if top {
-							inner.Z = 0
+							inner.Z = 1
 						}
 						for _, tiles := range [][]Tile{{inner, first}, {first}, {inner, first, inner}} {
 							c := &CaseC13{E: e, Off: fl.Int64() + delta, OutV: outV, Tiles: tiles}
